@@ -27,7 +27,8 @@ Definition gz (l : Z) : ccfg := {| c_type := s_gzip; c_level := l |}.
 Definition srv (mx : Z) (algs : option (list string)) (cu : list (string * N)) : scfg :=
   {| s_max := mx; s_algs := algs; s_custom := cu |}.
 Definition rq (ce : list string) (b : bytes) : creq :=
-  {| q_ce := ce; q_body := Some b; q_rerr := false; q_cerr := false |}.
+  {| q_ce := ce; q_body := Some b; q_stream := false; q_rerr := false; q_cerr := false |}.
+Definition wr (ce : list string) (b : bytes) : wreq := {| w_ce := ce; w_body := b; w_cl := blen b |}.
 
 (* all hypotheses of [roundtrip] hold for a concrete non-trivial instance, and the conclusion computes *)
 Example ex_roundtrip :
@@ -66,34 +67,47 @@ Proof. vm_compute. reflexivity. Qed.
 
 (* an enabled name without an available decoder binds a nil func *)
 Example ex_nil_decoder :
-  server toy_dec toy_cdec (srv 100 (Some [s_empty; "br"%string]) []) {| w_ce := ["br"%string]; w_body := [1]%N |} = Panicked.
+  server toy_dec toy_cdec (srv 100 (Some [s_empty; "br"%string]) []) (wr (["br"%string]) ([1]%N)) = Panicked.
 Proof. vm_compute. reflexivity. Qed.
 
 (* limit: a small compressed body that expands (custom decoder 3 doubles every byte; limit 4) *)
 Example ex_limit_custom :
-  server toy_dec toy_cdec (srv 4 None [("x-dbl"%string, 3%N)]) {| w_ce := ["x-dbl"%string]; w_body := [1;2;3]%N |}
+  server toy_dec toy_cdec (srv 4 None [("x-dbl"%string, 3%N)]) (wr (["x-dbl"%string]) ([1;2;3]%N))
   = Handled [] (-1) ([1;1;2;2]%N, E_TOOLARGE).
 Proof. vm_compute. reflexivity. Qed.
 
 Example ex_limit_decoded :
-  server toy_dec toy_cdec (srv 3 None []) {| w_ce := [s_zstd]; w_body := [7;1;2]%N |} = Handled [] (-1) ([1;2]%N, E_EOF) /\
-  server toy_dec toy_cdec (srv 3 None []) {| w_ce := [s_zstd]; w_body := [7;1;2;3]%N |} = Handled [] (-1) ([1;2]%N, E_TOOLARGE) /\
-  server toy_dec toy_cdec (srv 3 None []) {| w_ce := []; w_body := [7;1;2;3]%N |} = Handled [] 4 ([7;1;2]%N, E_TOOLARGE) /\
-  server toy_dec toy_cdec (srv 3 None []) {| w_ce := [s_gzip]; w_body := [1;2]%N |} = Rejected 400 /\
-  server toy_dec toy_cdec (srv 3 None []) {| w_ce := ["GZIP"%string]; w_body := [7;2]%N |} = Rejected 400.
+  server toy_dec toy_cdec (srv 3 None []) (wr ([s_zstd]) ([7;1;2]%N)) = Handled [] (-1) ([1;2]%N, E_EOF) /\
+  server toy_dec toy_cdec (srv 3 None []) (wr ([s_zstd]) ([7;1;2;3]%N)) = Handled [] (-1) ([1;2]%N, E_TOOLARGE) /\
+  server toy_dec toy_cdec (srv 3 None []) (wr ([]) ([7;1;2;3]%N)) = Handled [] 4 ([7;1;2]%N, E_TOOLARGE) /\
+  server toy_dec toy_cdec (srv 3 None []) (wr ([s_gzip]) ([1;2]%N)) = Rejected 400 /\
+  server toy_dec toy_cdec (srv 3 None []) (wr (["GZIP"%string]) ([7;2]%N)) = Rejected 400.
 Proof. vm_compute. repeat split. Qed.
 
 (* a body that fails while being compressed: nothing is sent; with a preset header it is not touched *)
 Example ex_body_error :
-  client toy_enc (gz 0) {| q_ce := []; q_body := Some [1]%N; q_rerr := true; q_cerr := false |} = CError /\
-  client toy_enc (gz 0) {| q_ce := []; q_body := Some [1]%N; q_rerr := false; q_cerr := true |} = CError /\
-  client toy_enc (gz 0) {| q_ce := []; q_body := None; q_rerr := true; q_cerr := true |}
-    = CSent {| w_ce := [s_gzip]; w_body := [7]%N |}.
+  client toy_enc (gz 0) {| q_ce := []; q_body := Some [1]%N; q_stream := false; q_rerr := true; q_cerr := false |} = CError /\
+  client toy_enc (gz 0) {| q_ce := []; q_body := Some [1]%N; q_stream := false; q_rerr := false; q_cerr := true |} = CError /\
+  client toy_enc (gz 0) {| q_ce := []; q_body := None; q_stream := false; q_rerr := true; q_cerr := true |}
+    = CSent (wr ([s_gzip]) ([7]%N)).
+Proof. vm_compute. repeat split. Qed.
+
+(* a body sent without declared length (chunked) is limited like any other; the handler sees -1 *)
+Example ex_chunked :
+  server toy_dec toy_cdec (srv 3 None []) {| w_ce := []; w_body := [1;2;3;4;5]%N; w_cl := (-1) |}
+    = Handled [] (-1) ([1;2;3]%N, E_TOOLARGE) /\
+  server toy_dec toy_cdec (srv 3 None []) {| w_ce := [s_gzip]; w_body := [7;1;2;3;4]%N; w_cl := (-1) |}
+    = Handled [] (-1) ([1;2]%N, E_TOOLARGE) /\
+  client toy_enc {| c_type := s_none; c_level := 0 |}
+         {| q_ce := []; q_body := Some [1;2]%N; q_stream := true; q_rerr := false; q_cerr := false |}
+    = CSent {| w_ce := []; w_body := [1;2]%N; w_cl := (-1) |} /\
+  client toy_enc (gz 0) {| q_ce := []; q_body := Some [1;2]%N; q_stream := true; q_rerr := false; q_cerr := false |}
+    = CSent {| w_ce := [s_gzip]; w_body := [7;1;2]%N; w_cl := 3 |}.
 Proof. vm_compute. repeat split. Qed.
 
 (* preset header: untouched *)
 Example ex_preset :
-  client toy_enc (gz 0) (rq ["identity"%string] [1;2]%N) = CSent {| w_ce := ["identity"%string]; w_body := [1;2]%N |}.
+  client toy_enc (gz 0) (rq ["identity"%string] [1;2]%N) = CSent (wr (["identity"%string]) ([1;2]%N)).
 Proof. vm_compute. reflexivity. Qed.
 
 (* configuration: level 0 means "default" for every type; levels are validated per type *)
